@@ -26,6 +26,8 @@ CLAIMED = {
 
  'C01': ('5.4', 'For every compiled mapping, every pipe state, every exporter and every byte string the three pipes, the exported decoders and the dissector return a value or an error: no panic, no fuel exhaustion with fuel linear in the datagram -- proved (progress lemma per loop, potential function for the dissector, bit-range safety of GetBytes); every compiled mapping file satisfies the hypothesis; hostile histories through all pipes, generated mapping files, mapping.yaml and the exported entry points with a nil configuration under a watchdog, compared with the model.', 'Partial: wall-clock is observed by the watchdog; the theorem bounds loop iterations. Third-party code (protobuf-go, encoding/json) is outside the model. '),
  'C02': ('5.5', 'Slot counts pre-sized from attacker-controlled counts are capped and every decoded element is physically present: sFlow slots <= 1000 + 1000*(len/20) for every byte string, data-set records * min-size <= set bytes, v5 slots <= 16-bit count -- proved (ghost quantity); measured: every aligned 16/32-bit word of structured datagrams replaced by each of the 7 hostile values, TotalAlloc per datagram <= 16 MiB + 256*len*(1+W) in a child with an address-space limit.', 'Partial: the theorems bound the ghost slot/record counts for successful decodes; real bytes (GC, allocator, failing decodes) are measured, not modelled. '),
+
+ 'C16': ('5.16', 'For any number of workers and any interleaving of their lookup / create-publish / add steps the repaired protocol keeps every announced template and rate visible (inductive invariant over all schedules); the pinned protocol is refuted by an explicit 6-step schedule; on the implementation every release order of 2..3 workers parked inside the public factory callbacks is forced, for the template map and the sampling map, followed by sequential data sets.', 'Partial: interleavings are forced at the factory callbacks only; atomicity of the individual steps is assumed (single critical sections). '),
 }
 props = [json.loads(l) for l in open(os.path.join(V, 'properties.jsonl'))]
 checks, na = [], []
